@@ -236,6 +236,18 @@ impl Sim {
                     return false;
                 }
             };
+            // an incompatible core version never yields a connected peer
+            {
+                let mine = { self.nodes[node].wallet.read().await.core_version };
+                if resp.core_version.major != mine.major || resp.core_version.minor != mine.minor {
+                    rep.violation(
+                        &format!("C17|clause=connected-despite-incompatible-version|adversarial={}", adversarial),
+                        &format!("node {} (core {}.{}.{}) marked peer {} Connected on a response announcing core version {}.{}.{} (trace {:?})", node, mine.major, mine.minor, mine.patch, p, resp.core_version.major, resp.core_version.minor, resp.core_version.patch, self.trace.iter().rev().take(10).collect::<Vec<_>>()),
+                        witness.clone(),
+                    );
+                    return false;
+                }
+            }
             let mut justified = false;
             let mut stale = false;
             if let Some(list) = self.issued.get_mut(&(node, *p)) {
